@@ -39,6 +39,10 @@ def tr (c s : Rat) (t p : Pt) : Pt :=
 /-- The rotation alone (used for the velocity vector of a point-mass state). -/
 def rot (c s : Rat) (v : Pt) : Pt := ⟨c * v.x - s * v.y, s * v.x + c * v.y⟩
 
+/-- `transform.rotate_translate` on one vertex (transform.py:25-60): first rotate about the origin, then translate by `t`
+    (used by `Shape.rotate_translate_local`, not by any `translate_rotate`). -/
+def rt (c s : Rat) (t p : Pt) : Pt := ⟨c * p.x - s * p.y + t.x, s * p.x + c * p.y + t.y⟩
+
 /-- The parameters of one `translate_rotate(t, a)` call: `c = math.cos(a)`, `s = math.sin(a)`, `τ = TWO_PI`. -/
 structure Mo where
   c : Rat
@@ -459,5 +463,40 @@ def ProblemSet.movePicked (m : Mo) (pick : List Nat) (ps : ProblemSet) : Res Pro
     match mapR (fun (x : List State × Nat) => if x.2 ∈ pick then moveStates m x.1 else .ok x.1) ps.goals.zipIdx with
     | .error e => .error e
     | .ok gs => .ok ⟨gs, is.zip (ps.problems.map (·.2))⟩
+
+/-! ### which Python attributes the records above stand for (compared with the table extracted from the source in CRProps/T05) -/
+
+/-- per class with an in-place `translate_rotate`: the world-frame attributes (Python names without leading `_`) the model
+    record lists and `X.move` moves. -/
+def spatialFields : List (String × List String) := [
+  ("StopLine", ["start", "end"]),
+  ("Lanelet", ["left_vertices", "center_vertices", "right_vertices", "stop_line", "polygon"]),
+  ("LaneletNetwork", ["lanelets", "traffic_signs", "traffic_lights", "areas"]),
+  ("TrafficSign", ["position"]), ("TrafficLight", ["position"]),
+  ("AreaBorder", ["border_vertices"]), ("Area", ["border"]),
+  ("Trajectory", ["state_list"]), ("Occupancy", ["shape"]), ("SetBasedPrediction", ["occupancy_set"]),
+  ("TrajectoryPrediction", ["trajectory"]),
+  ("StaticObstacle", ["initial_state"]), ("DynamicObstacle", ["initial_state", "prediction", "history"]),
+  ("PhantomObstacle", ["prediction"]), ("EnvironmentObstacle", ["obstacle_shape"]),
+  ("Scenario", ["lanelet_network", "obstacles"]),
+  ("GoalRegion", ["state_list"]), ("PlanningProblem", ["initial_state", "goal"]),
+  ("PlanningProblemSet", ["planning_problem_dict"])]
+
+/-- body-frame attributes: given relative to the object, they must NOT be moved. -/
+def bodyFields : List (String × List String) := [
+  ("TrafficLight", ["shape"]), ("TrajectoryPrediction", ["shape"]),
+  ("StaticObstacle", ["obstacle_shape"]), ("DynamicObstacle", ["obstacle_shape"])]
+
+/-- every listed field of every class occurs in the extracted table -/
+def fieldsCovered (want got : List (String × List String)) : Bool :=
+  want.all fun cf => match got.lookup cf.1 with
+    | none => false
+    | some g => cf.2.all fun f => g.contains f
+
+/-- no listed field of any class occurs in the extracted table -/
+def fieldsAvoided (never got : List (String × List String)) : Bool :=
+  never.all fun cf => match got.lookup cf.1 with
+    | none => true
+    | some g => cf.2.all fun f => !g.contains f
 
 end CR.Rigid
